@@ -73,6 +73,7 @@ struct DiffOpts {
     bool skip_header = false;
     bool skip_params = false;
     bool skip_frames = false;
+    bool skip_reserved_words = false;   // header emptyBlock1..4: not part of the content C01/C04 speak about
     bool ignore_empty_subframes = false; // a sub-frame without channels carries no sample: [] == [[],[]]
 };
 // "" if equal, otherwise "<path>: <a> != <b>" for the first difference; facet gets a stable,
